@@ -32,6 +32,7 @@ import (
 	"github.com/bufbuild/buf/private/bufpkg/bufcas"
 	"github.com/bufbuild/buf/private/bufpkg/bufprotoplugin"
 	"github.com/bufbuild/buf/private/bufpkg/bufprotoplugin/bufprotopluginos"
+	"github.com/bufbuild/buf/private/pkg/normalpath"
 	"github.com/bufbuild/buf/private/pkg/storage"
 	"github.com/bufbuild/buf/private/pkg/storage/storagearchive"
 	"github.com/bufbuild/buf/private/pkg/storage/storagemem"
@@ -926,6 +927,7 @@ func TestExhaustive(t *testing.T) {
 			}
 		}
 		checkFileNode(t, r, p)
+		checkNormalize(t, r, p)
 	}
 }
 
@@ -940,7 +942,7 @@ func TestRandom(t *testing.T) {
 		r.Extra("random_max_dotdot_components", 4)
 	}
 	n := 0
-	r.Check(t, r.Scale(2400, 84000), 1, func(t *rapid.T) {
+	r.Check(t, r.Scale(4000, 200000), 1, func(t *rapid.T) {
 		p := pathgen.GenHostilePath(4).Draw(t, "path")
 		s := subjects[rapid.IntRange(0, len(subjects)-1).Draw(t, "kind")]
 		classifyPath(r, p)
@@ -959,6 +961,40 @@ func TestRandom(t *testing.T) {
 	})
 }
 
+// checkNormalize compares buf's validator directly with the reference: hostile strings are rejected,
+// and what is accepted is the reference normal form (so it denotes a place inside the root).
+func checkNormalize(t evid.TB, r *evid.Recorder, p string) bool {
+	r.Eval()
+	norm, verdict := pathgen.RefNormalize(p)
+	got, err := normalpath.NormalizeAndValidate(p)
+	c := c13Case{Kind: "normalpath", Op: "normalize-and-validate", Path: p}
+	desc := fmt.Sprintf("normalpath.NormalizeAndValidate(%q) = (%q, err=%s); reference: %s, normal form %q", p, got, errStr(err), verdict, norm)
+	switch {
+	case verdict.Hostile() && err == nil:
+		r.Fail(t, acceptedKey(norm, verdict), desc+"; a path that leaves its context must be rejected", c)
+		return false
+	case !verdict.Hostile() && err == nil && got != norm:
+		r.Fail(t, "normal-form-differs", desc, c)
+		return false
+	case !verdict.Hostile() && err != nil:
+		r.Class("normalize-ok-path-rejected") // acceptable for C13, never observed on the pinned tree
+	}
+	return true
+}
+
+// TestNormalizeRandom feeds many more random strings to the validator alone (no bucket, cheap).
+func TestNormalizeRandom(t *testing.T) {
+	r := evid.R()
+	r.Check(t, r.Scale(40000, 1400000), 2, func(t *rapid.T) {
+		p := pathgen.GenHostilePath(12).Draw(t, "path")
+		if rapid.IntRange(0, 3).Draw(t, "join") == 0 {
+			p = p + "/" + pathgen.GenHostilePath(12).Draw(t, "path2")
+		}
+		classifyPath(r, p)
+		checkNormalize(t, r, p)
+	})
+}
+
 // TestReplay re-runs the oracle on a saved case (no generator).
 func TestReplay(t *testing.T) {
 	var c c13Case
@@ -973,6 +1009,10 @@ func TestReplay(t *testing.T) {
 	defer r.Begin(t)()
 	if c.Kind == "filenode" {
 		checkFileNode(t, r, c.Path)
+		return
+	}
+	if c.Kind == "normalpath" {
+		checkNormalize(t, r, c.Path)
 		return
 	}
 	fastDir, _ := bucketmodel.FastScratchDir(t)
